@@ -684,6 +684,18 @@ fn collapse_duplicate_fields<'a>(
     Some(chosen)
 }
 
+/// Whether a JSON string's content bytes (between the quotes) can be written
+/// back verbatim by the jq-convention printers.
+///
+/// A backslash means the span has escapes to normalize; a raw DEL (`0x7f`) is
+/// legal JSON but jq's convention escapes it as `\u007f`
+/// (`write_json_body_jq`), so copying it through made the lazy cursor printer
+/// disagree with the materialized route on the same document.
+#[inline]
+fn span_is_verbatim_safe(content: &[u8]) -> bool {
+    !content.iter().any(|&b| b == b'\\' || b == 0x7f)
+}
+
 /// Write one object key and its colon, honouring `-a`/`--ascii-output`.
 ///
 /// Shared by the compact and pretty loops, which differ only in what
@@ -702,7 +714,7 @@ fn write_object_key<Out: Write, W: Clone + AsRef<[u64]>>(
     let StandardJson::String(key) = frame.cursor(field.key_bp).value() else {
         return Ok(());
     };
-    if !config.ascii_output && !field.escaped {
+    if !config.ascii_output && !field.escaped && !field.raw.contains(&0x7f) {
         out.write_all(field.raw)?;
     } else if let Ok(decoded) = key.as_str() {
         out.write_all(b"\"")?;
@@ -3015,7 +3027,7 @@ where
                     // output raw bytes directly without decode/encode roundtrip.
                     // This is valid because JSON strings without backslashes need no normalization.
                     let content = &raw[1..raw.len().saturating_sub(1)]; // Content between quotes
-                    if !config.ascii_output && !content.contains(&b'\\') {
+                    if !config.ascii_output && span_is_verbatim_safe(content) {
                         // Zero-copy: output raw bytes directly (includes quotes)
                         out.write_all(raw)?;
                     } else if let Ok(decoded) = s.as_str() {
@@ -3260,7 +3272,7 @@ where
                     if let SJ::String(k) = field.key() {
                         let raw = k.raw_bytes();
                         let content = &raw[1..raw.len().saturating_sub(1)];
-                        if !config.ascii_output && !content.contains(&b'\\') {
+                        if !config.ascii_output && span_is_verbatim_safe(content) {
                             out.write_all(raw)?;
                         } else if let Ok(decoded) = k.as_str() {
                             out.write_all(b"\"")?;
@@ -3289,7 +3301,7 @@ where
                     if let SJ::String(k) = field.key() {
                         let raw = k.raw_bytes();
                         let content = &raw[1..raw.len().saturating_sub(1)];
-                        if !config.ascii_output && !content.contains(&b'\\') {
+                        if !config.ascii_output && span_is_verbatim_safe(content) {
                             out.write_all(raw)?;
                         } else if let Ok(decoded) = k.as_str() {
                             out.write_all(b"\"")?;
